@@ -163,10 +163,14 @@ class RefCoapAccessory:
             reply = self.pv.handle_m1(req)
             if self.verify_fault:
                 reply = self.verify_fault("m2", reply, self.pv)
+            if reply is None:
+                return None          # a sleepy / out-of-range device: no answer to M1
         else:
             reply = self.pv.handle_m3(req)
             if self.verify_fault:
                 reply = self.verify_fault("m4", reply, self.pv)
+            if reply is None:
+                return None
             if self.pv.verified and not any(t == T_ERROR for t, _ in reply):
                 pv = self.pv
                 self.sess = {"rx": pv.key(b"Control-Salt", b"Control-Write-Encryption-Key"), "tx": pv.key(b"Control-Salt", b"Control-Read-Encryption-Key"),
